@@ -50,7 +50,7 @@ func (m *Mesh) icmpExitFrame(from identity.AgentID, f *protocol.Frame) {
 		m.icmpMu.Lock()
 		m.icmpSess[f.StreamID] = s
 		m.icmpMu.Unlock()
-		m.A.VerifProcessFrame(m.B.ID(), &protocol.Frame{Type: s.ack.Type, StreamID: s.ack.StreamID, Payload: append([]byte(nil), s.ack.Payload...)})
+		m.sendAckBurst(s.ack)
 	case protocol.FrameICMPEcho:
 		m.icmpMu.Lock()
 		s := m.icmpSess[f.StreamID]
